@@ -52,6 +52,7 @@ func (w *World) renderQuery(o *Obl, forCVC5 bool) string {
 	ufs := map[string]string{}
 	usesInv := false
 	itoaArgs := map[string]*Term{}
+	runesArgs := map[string]*Term{}
 	for _, t := range all {
 		walk(t, func(s *Term) {
 			if s.Kind != KApp || len(s.Args) == 0 {
@@ -77,6 +78,9 @@ func (w *World) renderQuery(o *Obl, forCVC5 bool) string {
 			ufs[op] = "(declare-fun " + op + " (" + strings.Join(as, " ") + ") " + s.Sort + ")"
 			if op == "itoa" {
 				itoaArgs[s.Args[0].String()] = s.Args[0]
+			}
+			if op == "runes_of" {
+				runesArgs[s.Args[0].String()] = s.Args[0]
 			}
 			if op == "itoa_inv" {
 				delete(ufs, op)
@@ -117,6 +121,38 @@ func (w *World) renderQuery(o *Obl, forCVC5 bool) string {
 		b.WriteString("(define-fun byte_str ((x String)) String (ite (< (str.to_code x) 128) x (str.++ (str.from_code (+ 192 (div (str.to_code x) 64))) (str.from_code (+ 128 (mod (str.to_code x) 64))))))\n")
 	}
 	b.WriteString(defs)
+	if len(runesArgs) > 0 {
+		// []rune(s): as many runes as characters at most, none exactly for the empty string, and the
+		// first rune of a string that starts with an ASCII byte is that byte (closed instances only)
+		keys := make([]string, 0, len(runesArgs))
+		for k := range runesArgs {
+			keys = append(keys, k)
+		}
+		sort.Strings(keys)
+		needRQ := false
+		defer func() { _ = needRQ }()
+		for _, k := range keys {
+			fv := map[string]string{}
+			collectVars(runesArgs[k], fv)
+			closed := true
+			for v := range fv {
+				if _, ok := vars[v]; !ok {
+					closed = false
+				}
+			}
+			if !closed {
+				needRQ = true
+				continue
+			}
+			r := "(runes_of " + k + ")"
+			fmt.Fprintf(&b, "(assert (and (>= (Sl_Int_len %s) 0) (<= (Sl_Int_len %s) (str.len %s)) (= (= (Sl_Int_len %s) 0) (= (str.len %s) 0)) (not (Sl_Int_nil %s))))\n", r, r, k, r, k, r)
+			fmt.Fprintf(&b, "(assert (=> (and (>= (str.len %s) 1) (< (str.to_code (str.at %s 0)) 128)) (= (select (Sl_Int_arr %s) 0) (str.to_code (str.at %s 0)))))\n", k, k, r, k)
+		}
+		if needRQ {
+			// applied to a bound variable / definition parameter: the same facts, pattern-guarded
+			b.WriteString("(assert (forall ((s!r String)) (! (and (>= (Sl_Int_len (runes_of s!r)) 0) (<= (Sl_Int_len (runes_of s!r)) (str.len s!r)) (= (= (Sl_Int_len (runes_of s!r)) 0) (= (str.len s!r) 0)) (not (Sl_Int_nil (runes_of s!r))) (=> (and (>= (str.len s!r) 1) (< (str.to_code (str.at s!r 0)) 128)) (= (select (Sl_Int_arr (runes_of s!r)) 0) (str.to_code (str.at s!r 0))))) :pattern ((runes_of s!r)))))\n")
+		}
+	}
 	if len(itoaArgs) == 0 && usesInv {
 		b.WriteString("(declare-fun itoa_inv (String) Int)\n")
 	}
